@@ -264,8 +264,13 @@ def gen_conc():
     bodies = fn_bodies(src)
     rows = []
     for name in ["consume", "produce", "read_buf", "write_buf"]:
-        b = find_fn(bodies, r"^<T: Copy> Buffer<T>$", name)
+        # (helpers of the file are inlined: a lock taken inside a helper that the function calls is a lock it takes)
+        b = inline_helpers(src, find_fn(bodies, r"^<T: Copy> Buffer<T>$", name),
+                           skip=("consume", "produce", "read_buf", "write_buf", "new", "drop", "slice", "slice_mut"))
         locks = len(re.findall(r"\.lock\(\)", b))
+        # a call `self.helper(…)` of a method of this file that takes the lock itself is one more acquisition
+        lockers = {n for n, bs in all_fn_bodies(src).items() if any(re.search(r"\.lock\(\)", x) for x in bs)}
+        locks += len([m for m in re.finditer(r"\bself\s*\.\s*(\w+)\s*\(", b) if m.group(1) in lockers])
         writes = [m.start() for m in re.finditer(r"\bs\s*\.\s*[\w.()]+\s*(=[^=]|\+=|-=)|\bs\s*\.\s*tags\s*\.\s*(entry|retain|remove|insert|clear)", b)]
         last_write = max(writes) if writes else -1
         early_drops = len([m for m in re.finditer(r"\bdrop\(\s*s\s*\)", b) if m.start() < last_write])
